@@ -243,6 +243,8 @@ def run_family(prop, tier, seed, driver, cfg, relevant, extra_oracle=None):
                     j = d["case"]["op_index"]
                     for suffix in cfg["search_suffixes"]:
                         h2 = list(hist[: j + 1]) + list(suffix(version, hist[: j + 1]))
+                        if persist == "none" and any(op[0] in ("X", "R") for op in h2[j + 1:]):
+                            continue          # a restart without persistence forgets everything, by design
                         tried += 1
                         try:
                             obs2, _ = gw.run_history(h2, version, kind, persist)
